@@ -81,7 +81,7 @@ class WF:
 
 def defects(rng):
     return [
-        ("word containing whitespace", W(rng.choice(["a b", "a\tb", " a", "x\ny"]))),
+        ("word containing whitespace", W(rng.choice(["a b", "a\tb", " a", "x\ny", "a\\ b", "a\\\\ b", "x\\\tb", "b\\ "]))),
         ("fuzzy on a non-word", mk("Fuzzy", [rng.choice([P('"a"'), mk("Group", [W("a")])])], num=num(1))),
         ("proximity on a non-phrase", mk("Proximity", [rng.choice([W("a"), mk("Group", [P('"a"')])])], num=num(2))),
         ("negative fuzziness", mk("Fuzzy", [W("a")], num=num(rng.choice([1, 5]), rng.choice([0, -1]), neg=True))),
